@@ -42,13 +42,14 @@ type Op struct {
 }
 
 type History struct {
-	Privileged bool `json:"privileged"`
-	Threads    int  `json:"threads"`
-	Extra      int  `json:"extra"`                // additional OS threads in various states (C10)
-	NoSeccomp  bool `json:"no_seccomp,omitempty"` // fault: seccomp(2) answers ENOSYS (an outer filter denies it)
-	NoNNP      bool `json:"no_nnp,omitempty"`     // fault: prctl(PR_SET_NO_NEW_PRIVS) answers EINVAL (an outer filter denies it); privileged children only
-	Procs      int  `json:"procs,omitempty"`      // GOMAXPROCS of the child (default 4); 1 = a single P while other OS threads exist
-	Ops        []Op `json:"ops"`
+	Privileged bool   `json:"privileged"`
+	Threads    int    `json:"threads"`
+	Extra      int    `json:"extra"`                // additional OS threads in various states (C10)
+	NoSeccomp  bool   `json:"no_seccomp,omitempty"` // fault: seccomp(2) answers ENOSYS (an outer filter denies it)
+	Refusal    string `json:"refusal,omitempty"`    // with no_seccomp: the errno of the refusal, "" (ENOSYS) | "EPERM" | "EACCES" (a container profile rather than an old kernel)
+	NoNNP      bool   `json:"no_nnp,omitempty"`     // fault: prctl(PR_SET_NO_NEW_PRIVS) answers EINVAL (an outer filter denies it); privileged children only
+	Procs      int    `json:"procs,omitempty"`      // GOMAXPROCS of the child (default 4); 1 = a single P while other OS threads exist
+	Ops        []Op   `json:"ops"`
 }
 
 type TState struct {
@@ -179,8 +180,18 @@ func child(h History) {
 		// fault injection: an outer filter (all threads) answers seccomp(2) with ENOSYS, as an old
 		// kernel or a container profile would; prctl keeps working
 		runtime.LockOSThread()
-		syscall.RawSyscall6(syscall.SYS_PRCTL, 38, 1, 0, 0, 0, 0)
-		outer := []syscall.SockFilter{{Code: 0x20, K: 0}, {Code: 0x15, Jt: 0, Jf: 1, K: 317}, {Code: 0x06, K: 0x00050000 | 38}, {Code: 0x06, K: 0x7fff0000}}
+		if !h.Privileged {
+			// (a privileged process installs the outer filter without the bit, so that the bit stays observable)
+			syscall.RawSyscall6(syscall.SYS_PRCTL, 38, 1, 0, 0, 0, 0)
+		}
+		errno := uint32(38)
+		switch h.Refusal {
+		case "EPERM":
+			errno = 1
+		case "EACCES":
+			errno = 13
+		}
+		outer := []syscall.SockFilter{{Code: 0x20, K: 0}, {Code: 0x15, Jt: 0, Jf: 1, K: 317}, {Code: 0x06, K: 0x00050000 | errno}, {Code: 0x06, K: 0x7fff0000}}
 		prog := syscall.SockFprog{Len: uint16(len(outer)), Filter: &outer[0]}
 		if _, _, e := syscall.RawSyscall(317, 1, 1, uintptr(unsafe.Pointer(&prog))); e != 0 {
 			fmt.Println(`{"fatal":"outer filter"}`)
@@ -467,6 +478,12 @@ func request(h History) string {
 	}
 	if h.NoSeccomp {
 		priv += 2
+		switch h.Refusal {
+		case "EPERM":
+			priv += 8
+		case "EACCES":
+			priv += 16
+		}
 	}
 	if h.NoNNP {
 		priv += 4
@@ -527,12 +544,14 @@ func genHistory(r *rand.Rand, profile string) History {
 			h.Procs = 1
 		}
 	}
-	if (profile == "load" || profile == "tsync") && r.Intn(8) == 0 {
+	if profile == "load" && r.Intn(5) == 0 || profile == "tsync" && r.Intn(8) == 0 {
 		h.NoSeccomp = true
+		h.Refusal = []string{"", "", "EPERM", "EACCES"}[r.Intn(4)]
 	} else if (profile == "load" || profile == "nnp") && r.Intn(8) == 0 {
 		// only a privileged process can install the outer filter without setting the bit itself
 		h.NoNNP, h.Privileged = true, true
 	}
+	listener := false
 	for i := 0; i < nops; i++ {
 		op := Op{Op: "load", Thread: r.Intn(h.Threads), NNP: r.Intn(2) == 0, Flags: flagsPool[r.Intn(4)], Policy: "valid"}
 		op.Warm = r.Intn(4) == 0
@@ -552,6 +571,12 @@ func genHistory(r *rand.Rand, profile string) History {
 			case 3:
 				op = Op{Op: "supported", Thread: r.Intn(h.Threads)}
 			}
+			if !listener && r.Intn(8) == 0 && op.Op == "load" && op.Flags < 4 {
+				// SECCOMP_FILTER_FLAG_NEW_LISTENER (at most once per process: a chain holds one listener): alone or
+				// with LOG the kernel attaches and returns a descriptor (positive, errno 0); with TSYNC it refuses
+				listener = true
+				op.Flags = []uint32{8, 8, 10, 9, 11}[r.Intn(5)]
+			}
 		case "tsync":
 			op.NNP = true
 			if i == nops-1 {
@@ -559,6 +584,16 @@ func genHistory(r *rand.Rand, profile string) History {
 			}
 		}
 		h.Ops = append(h.Ops, op)
+	}
+	if h.NoSeccomp && profile == "load" {
+		// where seccomp(2) is refused the probe matters most: Supported() on a thread whose state is observable
+		// (a privileged process installs the outer filter without no_new_privs)
+		h.Privileged = r.Intn(4) != 0
+		h.Ops = append(h.Ops, Op{Op: "supported", Thread: r.Intn(h.Threads)})
+		if r.Intn(2) == 0 {
+			// … also before any load has touched the thread
+			h.Ops = append([]Op{{Op: "supported", Thread: r.Intn(h.Threads)}}, h.Ops...)
+		}
 	}
 	if profile == "nnp" && !h.NoNNP && h.Threads >= 2 && r.Intn(4) == 0 {
 		// The bit is already on one thread only (the exported SetNoNewPrivs(), or an earlier load on that thread);
@@ -621,7 +656,7 @@ func compare(h History, obs []Obs, model string) (ok bool, note string, failing 
 			mf, _ := strconv.Atoi(f[1+2*t])
 			mn, _ := strconv.Atoi(f[2+2*t])
 			o.Threads[t].Filters -= base
-			if h.NoSeccomp {
+			if h.NoSeccomp && !h.Privileged {
 				mn = o.Threads[t].NNP // the outer filter needed the bit on every thread
 			}
 			if o.Threads[t].Filters != mf || o.Threads[t].NNP != mn {
@@ -635,7 +670,10 @@ func compare(h History, obs []Obs, model string) (ok bool, note string, failing 
 				if op.Op == "load" && !op.NNP && o.Threads[t].NNP == 1 && mn == 0 {
 					fail = fmt.Sprintf("%s: NoNewPrivs was not requested but thread %d has the bit now", where, t)
 				}
-				if o.Result != "nil" && (o.Threads[t].Filters > mf || o.Threads[t].NNP > mn) {
+				if op.Op == "supported" {
+					fail = fmt.Sprintf("%s: Supported() changed thread %d (filters %d, nnp %d; before the probe %d, %d)", where, t, o.Threads[t].Filters, o.Threads[t].NNP, mf, mn)
+				}
+				if op.Op != "supported" && o.Result != "nil" && (o.Threads[t].Filters > mf || o.Threads[t].NNP > mn) {
 					fail = fmt.Sprintf("%s: failed load changed thread %d (filters %d, nnp %d; expected %d, %d)", where, t, o.Threads[t].Filters, o.Threads[t].NNP, mf, mn)
 				}
 				return false, fmt.Sprintf("%s: thread %d has filters=%d nnp=%d, model %d %d", where, t, o.Threads[t].Filters, o.Threads[t].NNP, mf, mn), fail
@@ -841,7 +879,9 @@ func main() {
 		if h.Procs > 0 {
 			sum.Distribution[fmt.Sprintf("gomaxprocs:%d", h.Procs)]++
 		}
-		if h.NoSeccomp {
+		if h.NoSeccomp && h.Refusal != "" {
+			sum.Distribution["fault:seccomp-"+h.Refusal]++
+		} else if h.NoSeccomp {
 			sum.Distribution["fault:seccomp-ENOSYS"]++
 		}
 		if h.NoNNP {
